@@ -256,11 +256,16 @@ class Oracle(object):
       self.checked += 1
       m.cov["restart_checks"] += 1
     elif kind == "query" and ev.get("outcome") not in (None, "skip"):
-      if h.n_fits == 0 and op["method"] != "metric_call":
+      if h.n_ok_fits == 0 and h.n_interrupted == 0 and op["method"] != "metric_call":
+        # no fit has ever returned on this object (never fitted, or every fit
+        # so far was rejected): it is a not-yet-fitted estimator
         if ev["outcome"] != "exc:NotFittedError":
-          raise Violation("not_fitted_error", "cls=%s,method=%s,history" % (h.name, op["method"]),
-                          "%s on a never-fitted handle gave %s" % (op["method"], ev["outcome"]))
+          raise Violation("not_fitted_error", "cls=%s,method=%s,%s" % (
+                          h.name, op["method"], "history" if h.n_fits == 0 else "after_failed_fit"),
+                          "%s on a handle on which no fit has succeeded yet (%d failed fit(s)) gave %s"
+                          % (op["method"], h.n_fits, ev["outcome"]))
         m.cov["not_fitted_in_history"] += 1
+        m.cov["not_fitted_after_failed_fit"] += int(h.n_fits > 0)
         self.checked += 1
 
   def _maybe_blas(self, h, live):
@@ -327,7 +332,7 @@ def gen_plan(seed, tier):
       seed, tier, n_ops=(5, 14), dmax=5, pre_p=0.35, fresh_p=0.01 if tier == "thorough" else 0.006,
       weights=dict(query=22, refit=10, threshold=4, calibrate=2, handout=0, mutate=0,
                    restart=16, clone=14, ambient=3, eigsh=2, set_nondata=8, failfit=2,
-                   fault=0, new=14, swap_pre=6, interrupt=3))
+                   fault=0, new=14, swap_pre=6, interrupt=3), failfirst_p=0.25)
 
 
 SWEEP_SEED = [None]
